@@ -140,3 +140,7 @@ func (x *H) Observe() *seqmc.Fail {
 	}
 	return nil
 }
+
+// ModelKey is the layout-independent state key (seqmc falls back to it when the concrete layout of
+// the implementation turns out not to be a function of the operation history).
+func (x *H) ModelKey() string { return fmt.Sprint(x.Model) }
